@@ -36,7 +36,7 @@ static uint64_t timer_slack(void)
 }
 
 /* ------------------------------------------------------------------ ledger */
-#define LEDGER_N (1u << 16)
+#define LEDGER_N (1u << 14)
 enum { LK_FREE = 0, LK_TOMB, LK_MALLOC, LK_MMAP, LK_PTHREAD };
 static struct {
     const void *p;
@@ -65,6 +65,10 @@ static void ledger_add(const void *p, size_t sz, int kind)
     }
     if (tomb >= 0)
         h = (unsigned)tomb;
+    else if (ledger[h].kind != LK_FREE)
+        sim_fail("infra:ledger-full", "more than %u live resources", LEDGER_N);
+    if (ledger_live > (long)(LEDGER_N * 3 / 4))
+        sim_fail("infra:ledger-full", "more than %u live resources", LEDGER_N * 3 / 4);
     ledger[h].p = p;
     ledger[h].sz = sz;
     ledger[h].kind = kind;
